@@ -14,7 +14,9 @@ RULE = ("case = generated program with evidence (probabilistic facts incl. dupli
         "evidence depends on, found by exhaustive enumeration (MaxSAT: |dlog P| <= (n+1)*1e-4 for the integer weight quantisation, "
         "semiring: 1e-9); impossible evidence must be reported as unsatisfiable; non-trivial = >= 3 relevant choices and evidence on a "
         "derived atom; distinct by program text")
-ASSUMPTIONS = ["relevance is goal-directed: options of an AD whose head the evidence does not depend on are merged into one 'other' option "
+ASSUMPTIONS = ["a choice group that is reachable from the evidence but on which the truth of the evidence never depends may or may not be part of the "
+               "ground program: the optimum over either relevant set is accepted",
+               "relevance is goal-directed: options of an AD whose head the evidence does not depend on are merged into one 'other' option "
                "(this is how the ground program represents them)", "the reported assignment itself is not re-parsed; its probability is the oracle"]
 LEVEL_TEXT = ("Each program is solved by both real MPE implementations (including the external maxsatz process) and the optimum value is "
               "compared with brute-force enumeration; unsatisfiable evidence must be reported as such.")
@@ -117,6 +119,15 @@ def run_case(case):
         good = p > 0 and abs(math.log(p) - math.log(b)) <= (ng * 3 + 2) * 1e-4 + 1e-9
     else:
         good = abs(p - b) <= 1e-9 + 1e-9 * b
+    if not good and p > 0 and optim.LAST_INFO["irrelevant_groups"]:
+        # choice groups on which the evidence never depends may be absent from the ground program, or present with fewer separate options
+        tol = (ng * 3 + 2) * 1e-4 + 1e-9 if mode == "maxsat" else 1e-9
+        feas = optim.feasible_optima(best, optim.LAST_INFO["irrelevant_groups"])
+        if feas is None:
+            return skip("too many feasible optima")
+        if any(v > 0 and abs(math.log(p) - math.log(v)) <= tol for v in feas):
+            good = True
+            COUNTERS["optimum_over_other_relevant_set"] += 1
     if not good:
         dup = "|duplicate-fact" if F.get("dup_fact") else ""
         return viol("mpe:%s:not-optimal%s%s" % (mode, dup, tag), "%s reports probability %.10g, the most probable evidence-consistent assignment has "
